@@ -328,8 +328,21 @@ def rule_e(ctx: Context, R: Reporter):
                 continue
             env = {}
             for x in vec_names:
-                normed = any(d.kind == "aug" and isinstance(d.value.op, ast.Div) for d in flow.reaching(nd, x))
-                env[x] = Vec(1 / ps.S(1), 1) if normed else Vec(sp.Integer(1), 1)
+                # what the in-place division really divides by is evaluated, not assumed: `x /= np.max(x)` is not a
+                # normalisation by the own sum
+                env[x] = Vec(sp.Integer(1), 1)
+                augs = [d for d in flow.reaching(nd, x) if d.kind == "aug" and isinstance(d.value.op, ast.Div)]
+                if augs:
+                    factors = set()
+                    for d in augs:
+                        rhs = ExprResolver(f.node).resolve(d.value.value, d.node, bound={x})
+                        try:
+                            factors.add(sp.simplify(ps.eval(rhs, {x: Vec(sp.Integer(1), 1)})))
+                        except Undecided as ex:
+                            raise AnalysisError(f"C20.e: divisor of `{unparse(d.stmt)}` not decidable: {ex}")
+                    if len(factors) != 1:
+                        raise AnalysisError(f"C20.e: `{x}` is divided by different quantities on different paths ({sorted(map(str, factors))})")
+                    env[x] = Vec(1 / factors.pop(), 1)
             try:
                 got = ps.eval(v, env)
             except Undecided as ex:
@@ -477,6 +490,14 @@ def rule_f(ctx: Context, R: Reporter, vf: FuncInfo):
     # weights are normalised before use
     normed = any(isinstance(n, ast.Assign) and isinstance(n.value, ast.BinOp) and isinstance(n.value.op, ast.Div) and isinstance(n.value.right, ast.Call)
                  and (ctx.res.external_name(vf, n.value.right) or "") == "numpy.sum" and norm_text(n.value.left) == wp for n in walk_no_nested(vf.node))
+    if not normed:
+        from ..util import own_sum_normalisation
+        vflow = flow_of(vf.node)
+        for nd_ in vflow.cfg.stmt_nodes():
+            if nd_.kind == "stmt" and isinstance(nd_.stmt, (ast.Assign, ast.AugAssign)):
+                tg_ = nd_.stmt.targets[0] if isinstance(nd_.stmt, ast.Assign) else nd_.stmt.target
+                if isinstance(tg_, ast.Name) and tg_.id == wp and own_sum_normalisation(ctx, vf, nd_.stmt, nd_, vec_name=wp)[0] is True:
+                    normed = True
     R.check("C20.f", "the volume metric normalises its weights before use", normed, vf, vf.node, msg=f"{vf.short}: `{wp}` is never normalised", key="vv-normalises")
 
 
@@ -650,7 +671,7 @@ def run(ctx: Context, R: Reporter):
 
 
 def variants():
-    from ..variants import Variant, alpha_rename, delete_stmt, insert_before, replace_expr, replace_stmt
+    from ..variants import Variant, normalisation_twins, alpha_rename, delete_stmt, insert_before, replace_expr, replace_stmt
 
     tl = "tempest/tools.py"
     return [
@@ -675,6 +696,9 @@ def variants():
         Variant("e-ess-wrong-power", "bad", replace_expr(tl, "effective_sample_size", "weights ** 2.0", "weights ** 3.0"), ["C20.e"]),
         Variant("f-one-pass-cov", "bad", replace_stmt(tl, "volume_variation", "cov = np.dot(xc.T, xc * w[:, np.newaxis])", "cov = np.dot(x.T, x * w[:, np.newaxis]) - np.outer(weighted_mean, weighted_mean)"), ["C20.f"], quick=True),
         Variant("f-vv-unnormalised", "bad", delete_stmt(tl, "volume_variation", "w = w / np.sum(w)"), ["C20.f", "C20.d"]),
+        *normalisation_twins("a-trim", tl, "trim_weights", "weights /= np.sum(weights)", "weights", True, ["C20.a", "C20.b", "C20.c", "C20.d", "C20.e"]),
+        *normalisation_twins("d-ess", tl, "effective_sample_size", "weights = weights / np.sum(weights)", "weights", False, ["C20.d", "C20.e"]),
+        *normalisation_twins("f-vv", tl, "volume_variation", "w = w / np.sum(w)", "w", False, ["C20.f", "C20.d"]),
         Variant("benign-rename-mask", "benign", alpha_rename(tl, "trim_weights", "mask", "keep"), quick=True),
         Variant("benign-ess-product", "benign", replace_expr(tl, "effective_sample_size", "weights ** 2.0", "weights * weights")),
     ]
